@@ -584,7 +584,7 @@ def check_c04(tier, t0):
                 "non-trivial = the vector violates at least one documented rule",
         "samples": s["samples"] or [{}],
         "types_covered": sorted(s["per_type"].keys()),
-        "types_not_covered": ["101", "104", "107 (rules documented only as 'complex dependencies': not transcribed)",
+        "types_not_covered": ["104 (rules documented by name only: not transcribed)",
                               "196", "296", "200 (T80 guideline rule)", "292 (parser refuses the only violating shape)"],
         "codes_reported": s["codes_reported"],
         "refused_by_parser": s["rejected_by_parser"],
